@@ -588,6 +588,182 @@ var concProp = vp.Register(vp.Prop[Case]{
 	Check: checkConcurrent,
 })
 
+// ---------------------------------------------------------------------------
+// re-entrant values
+
+// ReentrantCase: a record carries an attribute value whose LogValue / String /
+// Error / MarshalText method itself logs a record through a handler of the
+// same tree (a lazily evaluated value or error type that emits a debug line).
+// Both records are "handled by a JSONHybridHandler", so each must produce its
+// line; Handle must return.
+type ReentrantCase struct {
+	ReplaceAttr bool `json:"replace_attr"`
+	Via         int  `json:"via"`    // 0 LogValuer, 1 fmt.Stringer, 2 error, 3 encoding.TextMarshaler
+	Outer       int  `json:"outer"`  // node handling the outer record: 0 root, 1 child A, 2 child B, 3 grandchild of A
+	Target      int  `json:"target"` // node the value logs through
+	Nested      bool `json:"nested"` // the inner record carries a second such value (logging through the root)
+	InGroup     bool `json:"in_group"`
+}
+
+type reentrantCore struct {
+	h      slog.Handler
+	active *atomic.Bool
+	calls  *atomic.Int32
+	msg    string
+	extra  []slog.Attr
+}
+
+func (v reentrantCore) fire() string {
+	if v.active.Load() {
+		v.calls.Add(1)
+		r := slog.NewRecord(time.Time{}, slog.LevelInfo, v.msg, 0)
+		r.AddAttrs(slog.String("inner", "yes"))
+		r.AddAttrs(v.extra...)
+		_ = v.h.Handle(context.Background(), r)
+	}
+	return "resolved"
+}
+
+type reLogValuer struct{ reentrantCore }
+type reStringer struct{ reentrantCore }
+type reError struct{ reentrantCore }
+type reMarshaler struct{ reentrantCore }
+
+func (v reLogValuer) LogValue() slog.Value         { return slog.StringValue(v.fire()) }
+func (v reStringer) String() string                { return v.fire() }
+func (v reError) Error() string                    { return v.fire() }
+func (v reMarshaler) MarshalText() ([]byte, error) { return []byte(v.fire()), nil }
+
+func wrapVia(via int, core reentrantCore) any {
+	switch via {
+	case 0:
+		return reLogValuer{core}
+	case 1:
+		return reStringer{core}
+	case 2:
+		return reError{core}
+	}
+	return reMarshaler{core}
+}
+
+func checkReentrant(c ReentrantCase) error {
+	w := &unsafeWriter{}
+	opts := Case{Level: -8, ReplaceAttr: c.ReplaceAttr}.opts()
+	root := slogutil.NewJSONHybridHandler(w, opts)
+	a := root.WithAttrs([]slog.Attr{slog.String("node", "A")})
+	b := root.WithAttrs([]slog.Attr{slog.Int("node", 2)})
+	aa := a.WithAttrs([]slog.Attr{slog.Bool("deep", true)})
+	nodes := []*node{
+		{h: root},
+		{h: a, attrs: []slog.Attr{slog.String("node", "A")}},
+		{h: b, attrs: []slog.Attr{slog.Int("node", 2)}},
+		{h: aa, attrs: []slog.Attr{slog.String("node", "A"), slog.Bool("deep", true)}},
+	}
+	active, calls := &atomic.Bool{}, &atomic.Int32{}
+	nestedCalls := &atomic.Int32{}
+	target := nodes[c.Target%4]
+	core := reentrantCore{h: target.h, active: active, calls: calls, msg: "inner message"}
+	var nestedCore reentrantCore
+	if c.Nested {
+		nestedCore = reentrantCore{h: root, active: active, calls: nestedCalls, msg: "innermost message"}
+		core.extra = []slog.Attr{slog.Any("again", wrapVia((c.Via+1)%4, nestedCore))}
+	}
+	val := slog.Any("lazy", wrapVia(c.Via, core))
+	if c.InGroup {
+		val = slog.Group("g", slog.Int("n", 1), val)
+	}
+	outer := slog.NewRecord(time.Time{}, slog.LevelWarn, "outer message", 0)
+	outer.AddAttrs(slog.String("first", "1"), val, slog.String("last", "z"))
+	outerNode := nodes[c.Outer%4]
+
+	// Reference lines, computed with the side effect switched off.
+	wantOuter, err := expectedLine(opts, outer, outerNode)
+	if err != nil {
+		return nil
+	}
+	innerRec := slog.NewRecord(time.Time{}, slog.LevelInfo, "inner message", 0)
+	innerRec.AddAttrs(slog.String("inner", "yes"))
+	innerRec.AddAttrs(core.extra...)
+	wantInner, _ := expectedLine(opts, innerRec, target)
+	innermostRec := slog.NewRecord(time.Time{}, slog.LevelInfo, "innermost message", 0)
+	innermostRec.AddAttrs(slog.String("inner", "yes"))
+	wantInnermost, _ := expectedLine(opts, innermostRec, nodes[0])
+
+	active.Store(true)
+	done := make(chan error, 1)
+	go func() {
+		done <- vp.Guard(func() error { return outerNode.h.Handle(context.Background(), outer) })
+	}()
+	select {
+	case herr := <-done:
+		if herr != nil {
+			return fmt.Errorf("Handle of a record whose attribute value logs through the same handler tree: %v", herr)
+		}
+	case <-time.After(20 * time.Second):
+		return fmt.Errorf("HANG: Handle of a record whose attribute value (via %d) logs through node %d of the same handler tree did not return within 20 s; %d bytes were written", c.Via, c.Target%4, len(w.data))
+	}
+	active.Store(false)
+	if w.overlap.Load() {
+		return fmt.Errorf("Write calls on the shared writer overlapped")
+	}
+	out := string(w.data)
+	if !strings.HasSuffix(out, "\n") {
+		return fmt.Errorf("output does not end with a newline: %q", out)
+	}
+	var got []string
+	for _, line := range strings.Split(strings.TrimSuffix(out, "\n"), "\n") {
+		_, msg, perr := parseLine(line)
+		if perr != nil {
+			return fmt.Errorf("re-entrant output: %w", perr)
+		}
+		got = append(got, msg)
+	}
+	var want []string
+	for i := int32(0); i < nestedCalls.Load(); i++ {
+		want = append(want, wantInnermost)
+	}
+	for i := int32(0); i < calls.Load(); i++ {
+		want = append(want, wantInner)
+	}
+	want = append(want, wantOuter)
+	if calls.Load() == 0 {
+		return fmt.Errorf("the attribute value was never evaluated, yet Handle returned: %q", got)
+	}
+	sg, sw := slices.Clone(got), slices.Clone(want)
+	sort.Strings(sg)
+	sort.Strings(sw)
+	if !slices.Equal(sg, sw) {
+		return fmt.Errorf("a record whose attribute value logged %d inner record(s) (and %d innermost) through the same tree: output lines\n  got:  %q\n  want: %q (in any order)", calls.Load(), nestedCalls.Load(), got, want)
+	}
+	vp.Class("reentrant")
+	vp.Class(fmt.Sprintf("reentrant:via-%d", c.Via))
+	vp.NonTrivialStr("c19.reentrant", fmt.Sprintf("%+v", c))
+	vp.Sample("reentrant", c)
+	return nil
+}
+
+var reentrantProp = vp.Register(vp.Prop[ReentrantCase]{
+	Kind: "c19.reentrant", Base: 2000,
+	Gen: func(t *rapid.T) ReentrantCase {
+		return ReentrantCase{
+			ReplaceAttr: rapid.Bool().Draw(t, "replaceattr"),
+			Via:         rapid.IntRange(0, 3).Draw(t, "via"),
+			Outer:       rapid.IntRange(0, 3).Draw(t, "outer"),
+			Target:      rapid.IntRange(0, 3).Draw(t, "target"),
+			Nested:      rapid.Bool().Draw(t, "nested"),
+			InGroup:     rapid.Bool().Draw(t, "ingroup"),
+		}
+	},
+	Check: checkReentrant,
+})
+
+func TestReentrant(t *testing.T) {
+	if os.Getenv("VP_VARIANT") == "conc" {
+		t.Skip("runs in the seq variant")
+	}
+	vp.Run(t, reentrantProp)
+}
+
 // TestRegression is the record shape that exposed the missing Clone: a record
 // built by several AddAttrs calls handed to two handlers with attributes.
 func TestRegression(t *testing.T) {
@@ -620,6 +796,9 @@ func TestConcurrent(t *testing.T) {
 		t.Skip("concurrent cases run in the conc variant (-race)")
 	}
 	vp.Run(t, concProp)
+	// Several independent handler trees (own writers) at the same time:
+	// trees must not share mutable state (package-level pools included).
+	vp.RunConcurrent(t, concProp, 150, 3, 3)
 }
 
 func TestReplay(t *testing.T) { vp.Replay(t) }
